@@ -13,6 +13,15 @@ package main
 //     XYZ, XYM and XYZM layouts, empty geometries and (in some cases) bytes
 //     that are not WKB: the column chunks carry GeospatialStatistics.
 //
+//   - "edge": columns whose chunk bounds sit at the edge of their type: the
+//     empty string as minimum (and as maximum when every value is empty), a
+//     zero-length byte array, float and double columns holding NaNs with both
+//     payload signs, -0 and +0, infinities, an optional column that is all
+//     null, a repeated string column with empty lists and empty strings, a
+//     fixed-length column of all-zero and all-0xFF values.  The statistics
+//     of such a chunk distinguish a bound that is set and empty from a bound
+//     that is absent.
+//
 // gen.Node has no leaf for the geospatial logical types: a leaf "bytes" with
 // Logical "geometry" / "geography" stands for them, schemaOf builds the
 // library's schema.
@@ -237,4 +246,84 @@ func geoStatsText(s format.GeospatialStatistics) string {
 	return fmt.Sprintf("types=%v x=[%x,%x] y=[%x,%x] z=[%s,%s] m=[%s,%s]", []int32(s.GeoSpatialTypes),
 		math.Float64bits(bb.XMin), math.Float64bits(bb.XMax), math.Float64bits(bb.YMin), math.Float64bits(bb.YMax),
 		opt(bb.ZMin), opt(bb.ZMax), opt(bb.MMin), opt(bb.MMax))
+}
+
+// ---- shape edge ----
+
+func edgeRoot() *gen.Node {
+	return &gen.Node{Name: "root", Fields: []*gen.Node{
+		{Name: "a_id", Rep: gen.Req, Leaf: "int64"},
+		{Name: "b_s", Rep: gen.Opt, Leaf: "string"},
+		{Name: "c_b", Rep: gen.Req, Leaf: "bytes"},
+		{Name: "d_f", Rep: gen.Opt, Leaf: "float"},
+		{Name: "e_d", Rep: gen.Req, Leaf: "double"},
+		{Name: "f_l", Rep: gen.Rpt, Leaf: "string"},
+		{Name: "g_n", Rep: gen.Opt, Leaf: "int32"},
+		{Name: "h_u", Rep: gen.Req, Leaf: "flba", Size: 3},
+	}}
+}
+
+// edgeRows: the seed selects, column by column, whether every value sits at
+// the edge (both bounds there) or only some do (one bound there).
+func edgeRows(cs c11Case) []parquet.Row {
+	root := edgeRoot()
+	rng := rand.New(rand.NewSource(cs.Gen.Seed ^ 0xed6e))
+	all := func(k int) bool { return posMod(cs.Gen.Seed>>uint(k), 2) == 0 } // column k holds edge values only
+	str := func(k int) []byte {
+		if all(k) || rng.Intn(4) == 0 {
+			return []byte{}
+		}
+		return []byte(fmt.Sprintf("s%02d", rng.Intn(40)))
+	}
+	f32 := []uint32{0x7fc00000, 0xffc00000, 0x7fc00001, 0x80000000, 0, 0x7f800000, 0xff800000}
+	f64 := []uint64{0x7ff8000000000000, 0xfff8000000000000, 0x7ff8000000000001, 0x8000000000000000, 0, 0x7ff0000000000000, 0xfff0000000000000}
+	var rows []parquet.Row
+	for i := 0; i < cs.Gen.NRows; i++ {
+		s := &gen.Val{IsOpt: true, Null: true}
+		if rng.Intn(10) >= cs.Gen.NullBias {
+			s = &gen.Val{IsOpt: true, Some: leafVal(parquet.ByteArrayValue(str(1)))}
+		}
+		f := &gen.Val{IsOpt: true, Null: true}
+		if rng.Intn(10) >= cs.Gen.NullBias {
+			switch {
+			case all(3):
+				// NaNs only, or zeros of both signs only
+				pick := f32[:3]
+				if posMod(cs.Gen.Seed>>8, 2) == 0 {
+					pick = f32[3:5]
+				}
+				f = &gen.Val{IsOpt: true, Some: leafVal(parquet.FloatValue(math.Float32frombits(pick[rng.Intn(len(pick))])))}
+			case rng.Intn(3) == 0:
+				f = &gen.Val{IsOpt: true, Some: leafVal(parquet.FloatValue(math.Float32frombits(f32[rng.Intn(len(f32))])))}
+			default:
+				f = &gen.Val{IsOpt: true, Some: leafVal(parquet.FloatValue(float32(rng.Intn(9)-4) / 2))}
+			}
+		}
+		var d parquet.Value
+		switch {
+		case all(4):
+			pick := f64[3:5]
+			if posMod(cs.Gen.Seed>>9, 2) == 0 {
+				pick = f64[:3]
+			}
+			d = parquet.DoubleValue(math.Float64frombits(pick[rng.Intn(len(pick))]))
+		case rng.Intn(3) == 0:
+			d = parquet.DoubleValue(math.Float64frombits(f64[rng.Intn(len(f64))]))
+		default:
+			d = parquet.DoubleValue(float64(rng.Intn(9)-4) / 2)
+		}
+		l := &gen.Val{IsRpt: true}
+		for j := rng.Intn(4); j > 0; j-- {
+			l.List = append(l.List, leafVal(parquet.ByteArrayValue(str(5))))
+		}
+		u := []byte{0, 0, 0}
+		if !all(7) {
+			u = [][]byte{{0, 0, 0}, {0xff, 0xff, 0xff}, {0, 0xff, 0}, {0x80, 0, 0}}[rng.Intn(4)]
+		}
+		rows = append(rows, gen.Shred(root, &gen.Val{Group: []*gen.Val{
+			leafVal(parquet.Int64Value(int64(i))), s, leafVal(parquet.ByteArrayValue(str(2))), f, leafVal(d), l,
+			{IsOpt: true, Null: true}, leafVal(parquet.FixedLenByteArrayValue(u)),
+		}}))
+	}
+	return rows
 }
